@@ -276,7 +276,11 @@ def simplify_math_iterators(source: str) -> str:
                 for value in rng.args
             ):
                 continue  # The number of steps can only be computed from numbers
-            yield from closed_form(node, _integrate_over(arg.elt, arg.generators))
+            try:
+                replacement = _integrate_over(arg.elt, arg.generators)
+            except (ArithmeticError, AttributeError, NotImplementedError, TypeError, ValueError):
+                continue  # Not an expression that sympy can sum, e.g. sum([1 for _ in [None]])
+            yield from closed_form(node, replacement)
 
 
 @processing.fix
